@@ -248,7 +248,7 @@ def main(prop, build_jobs, harnesses, assumptions, describe=None):
     for inc in inconclusive[:5]:
         print('INCONCLUSIVE %s %s: %s' % (
             inc['harness'], json.dumps(inc['params'], default=str)[:200],
-            inc['why'][-1500:]))
+            inc['why'][:300].replace('\n', ' | ')))
         bad = True
     if agg['paths'] == 0:
         print('INCONCLUSIVE no path explored')
